@@ -5,6 +5,8 @@
 mod ctx;
 mod rng;
 mod c09;
+#[allow(dead_code)]
+mod jsonproto;
 
 use ctx::{Ctx, Tier};
 
